@@ -64,6 +64,11 @@ FIRST_MISSED = {
     "C17-L": "new clause: where the spans are right, the value each node holds must be what its span decodes to",
     "C18-K": "MCWs layouts where the elements carrying xml:space also declare prefixes (namespace nodes stand in front of the attribute nodes)",
     "C19-L": "element names with U+212A KELVIN SIGN, whose Unicode lower case is ASCII k (HTML matches names ASCII-case-insensitively only); the xml prefix declared explicitly on inner elements",
+    "C02-M": "the check itself broke: a REJECT line whose detail held a control character was not valid JSON and the check died with a Python traceback (exit 1 without a VIOLATION line); REJECT lines are now parsed leniently and any internal error of a check is a tool error (exit 2)",
+    "C03-M": "damage kind: a raw '&' that is never closed, followed by a long run with multi-byte characters at every small offset",
+    "C05-M": "L1 was too permissive: for replace it accepted either survivor of a merge (as it must for the insert family, where the crate keeps the existing node); replace now has its own rule - whatever becomes adjacent is merged into the earlier node - which is what the crate does and what the statement says; the quick sample of small forests is stratified towards forests with two or more text nodes",
+    "C07-M": "more one-call jobs on small declaration- and attribute-rich forests; call instances are weighted so that calls on two different nodes with a movable second argument win over calls that must be refused",
+    "C10-M": "reported by C19 only: the change is in the name serialiser shared by both output methods but shows through the HTML5 serialiser alone, which the C10 check does not drive; C19 gained a family for it (outer default namespace, prefixed SVG / MathML / XHTML element with a declaration of its own, elements of the outer namespace inside)",
     "C12-F": "xml_id_node of a document created by the call must lie inside it (new clause under C12); clone profile parses xml:id documents and clones whole documents",
     "C14-E": "a non-ASCII character in the bracket strings (] > x < CR e-acute up to length 4 / 5)",
     "C17-F": "any white space between a PI's target and its data (two spaces, newline + indent, CR LF)",
